@@ -153,4 +153,294 @@ theorem recOK_ebcdic_key (m : Model) (e : Enc) (he : e.ebcdic = true) (hd : Digi
     rw [hbody]
     rcases hkk with h | h <;> subst h <;> simp only [recParse, he, if_true, hdec] <;> exact hpv
 
+
+/-! ### record 52 under EBCDIC: transliterated text followed by the raw image bytes, decoded section by section -/
+
+theorem spans_append (a b : List WField) (o : SymOff) : spans (a ++ b) o = spans a o ++ spans b (endOff a o) := by
+  induction a generalizing o with
+  | nil => simp [spans, endOff]
+  | cons f r ih => simp [spans, endOff, ih]
+
+theorem render_noimg (b64 : Bytes → Option Bytes) (ws : List WField) (v : Vals) (incl : Bool)
+    (h : ws.all (fun f => !f.imageOnly) = true) : render b64 ws incl v = render b64 ws true v := by
+  induction ws with
+  | nil => rfl
+  | cons f r ih =>
+    simp only [List.all_cons, Bool.and_eq_true, Bool.not_eq_true'] at h
+    simp only [render, h.1, Bool.false_and, Bool.false_eq_true, if_false]
+    rw [ih (by simpa using h.2)]
+
+theorem all_append_left {α : Type} (p : α → Bool) (a b : List α) (h : (a ++ b).all p = true) : a.all p = true := by
+  simp only [List.all_append, Bool.and_eq_true] at h; exact h.1
+
+theorem all_append_right {α : Type} (p : α → Bool) (a b : List α) (h : (a ++ b).all p = true) : b.all p = true := by
+  simp only [List.all_append, Bool.and_eq_true] at h; exact h.2
+
+theorem span_mem_field : ∀ (ws : List WField) (o0 o : SymOff) (f : WField), (o, f) ∈ spans ws o0 → f ∈ ws
+  | [], _, _, _, h => by simp [spans] at h
+  | g :: r, o0, o, f, h => by
+    simp only [spans, List.mem_cons, Prod.mk.injEq] at h
+    rcases h with ⟨_, hf⟩ | h
+    · simp [hf]
+    · exact List.mem_cons_of_mem _ (span_mem_field r _ o f h)
+
+/-- the slices of the EBCDIC carrier of a record whose last written field is the raw image -/
+theorem iv_slice (b64 : Bytes → Option Bytes) (cm : Charmap) (init : List WField) (last : WField) (v : Vals) (ht : TypeSet v)
+    (hwf : AllWf (init ++ [last]) = true) (hsym : ∀ g ∈ init ++ [last], LenIsSym b64 g v)
+    (hni : init.all (fun f => !f.imageOnly) = true) (hli : last.imageOnly = true)
+    (hsafe : (render b64 init true v).all (safeB cm) = true)
+    (o : SymOff) (f : WField) (pre post : Bytes) (hmem : (o, f) ∈ spans (init ++ [last]) ⟨0, []⟩)
+    (_h1 : render b64 (init ++ [last]) true v = pre ++ renderField b64 f v ++ post) (hpre : pre.length = o.val v) :
+    ∃ x, slice? ((render b64 init true v).map (enc1 cm) ++ renderField b64 last v) (pre.length : Int)
+        ((pre.length + (renderField b64 f v).length : Nat) : Int) = some x ∧
+      ∀ dc, dc = !f.imageOnly → (if dc = true then cm.decode x else x) = renderField b64 f v := by
+  have hwfI : AllWf init = true := by
+    simp only [AllWf, List.all_append, Bool.and_eq_true] at hwf; exact hwf.1
+  have hsymI : ∀ g ∈ init, LenIsSym b64 g v := fun g hg => hsym g (by simp [hg])
+  have hE0 : (⟨0, []⟩ : SymOff).val v = 0 := by simp [SymOff.val, sumW]
+  rw [spans_append] at hmem
+  rcases List.mem_append.1 hmem with hm | hm
+  · -- a text field
+    obtain ⟨pre', post', e1, e2, _⟩ := span_split b64 v ht init ⟨0, []⟩ o f hwfI hsymI hm
+    rw [hE0, Nat.zero_add] at e2
+    have hfi : f.imageOnly = false := by
+      have hf := span_mem_field init _ o f hm
+      simp only [List.all_eq_true, Bool.not_eq_true'] at hni
+      exact hni f hf
+    have hplen : pre.length = (pre'.map (enc1 cm)).length := by rw [List.length_map, hpre, e2]
+    have hflen : (renderField b64 f v).length = ((renderField b64 f v).map (enc1 cm)).length := by rw [List.length_map]
+    refine ⟨(renderField b64 f v).map (enc1 cm), ?_, ?_⟩
+    · rw [e1]
+      simp only [List.map_append, List.append_assoc]
+      rw [hplen, hflen]
+      have := slice?_mid (pre'.map (enc1 cm)) ((renderField b64 f v).map (enc1 cm)) (post'.map (enc1 cm) ++ renderField b64 last v)
+      simpa [List.append_assoc] using this
+    · intro dc hdc
+      rw [hdc, hfi]
+      simp only [Bool.not_false, if_true]
+      rw [e1] at hsafe
+      exact decode_enc cm _ (all_append_right _ _ _ (all_append_left _ _ _ hsafe))
+  · -- the image
+    simp only [spans, List.mem_singleton, Prod.mk.injEq, List.mem_cons, List.not_mem_nil, or_false] at hm
+    obtain ⟨ho, hf⟩ := hm
+    subst hf
+    have hE := endOff_val b64 v ht init ⟨0, []⟩ hwfI hsymI
+    rw [hE0, Nat.zero_add] at hE
+    have hplen : pre.length = ((render b64 init true v).map (enc1 cm)).length := by
+      rw [List.length_map, hpre, ho, hE]
+    refine ⟨renderField b64 f v, ?_, ?_⟩
+    · rw [hplen]
+      have := slice?_mid ((render b64 init true v).map (enc1 cm)) (renderField b64 f v) []
+      simpa using this
+    · intro dc hdc
+      rw [hdc, hli]
+      simp
+
+
+theorem ivMinLen_step_gen (dec : Bytes → Bytes) (l : Bytes) (stop w : Nat) (ws : List Nat) (pre post : Bytes) (n : Int)
+    (h1 : l = pre ++ post) (h2 : pre.length = stop) (h3 : w ≤ post.length) (h4 : parseNum (dec (post.take w)) = n) (hn : 0 ≤ n) :
+    ivMinLen dec l stop (w :: ws) = ivMinLen dec l (stop + w + n.toNat) ws := by
+  have hd : l.drop stop = post := by rw [h1, ← h2]; simp
+  have hl : ¬ l.length < stop + w := by rw [h1, List.length_append]; omega
+  rw [ivMinLen]
+  simp only [hl, if_false, hd, h4]
+  have : ¬ n < 0 := by omega
+  simp only [this, if_false]
+
+/-- a length field that lies inside the text part reads the same through the EBCDIC carrier -/
+theorem carrier_reads (cm : Charmap) (T img p q : Bytes) (w : Nat) (hline : T ++ img = p ++ q) (hin : p.length + w ≤ T.length)
+    (hsafe : T.all (safeB cm) = true) :
+    ∃ qE, T.map (enc1 cm) ++ img = p.map (enc1 cm) ++ qE ∧ w ≤ qE.length ∧ cm.decode (qE.take w) = q.take w := by
+  rcases List.append_eq_append_iff.1 hline with ⟨a', hp, hi⟩ | ⟨c', hT, hq⟩
+  · -- p = T ++ a' : then a' = [] by length
+    have : a'.length = 0 := by
+      have := congrArg List.length hp; simp only [List.length_append] at this; omega
+    have ha : a' = [] := List.eq_nil_of_length_eq_zero this
+    subst ha
+    simp only [List.append_nil] at hp
+    simp only [List.nil_append] at hi
+    subst hp
+    have hw : w = 0 := by omega
+    subst hw
+    exact ⟨img, by simp, by omega, by simp [Charmap.decode]⟩
+  · subst hT
+    subst hq
+    simp only [List.length_append] at hin
+    refine ⟨c'.map (enc1 cm) ++ img, by simp [List.append_assoc], by simp only [List.length_append, List.length_map]; omega, ?_⟩
+    have e1 : (c'.map (enc1 cm) ++ img).take w = (c'.take w).map (enc1 cm) := by
+      rw [List.take_append_of_le_length (by rw [List.length_map]; omega), map_take]
+    have e2 : (c' ++ img).take w = c'.take w := by
+      rw [List.take_append_of_le_length (by omega)]
+    rw [e1, e2]
+    exact decode_enc cm _ (all_take _ _ w (all_append_right _ _ _ hsafe))
+
+
+/-- the decode flags of `Parse()` agree with the carrier: every member decoded through the reader's decoder except the image -/
+def flagsB (ws : List WField) (ps : List PStmt) : Bool :=
+  ps.all (fun st => match st with
+    | .assign dst _ _ _ dc => ws.all (fun f => f.src != dst || dc == !f.imageOnly)
+    | _ => true)
+
+theorem flagsB_sound (ws : List WField) (ps : List PStmt) (h : flagsB ws ps = true) :
+    FlagsOK (fun f dc => dc = !f.imageOnly) ws ps := by
+  intro dst lo hi k dc hm f hf hs
+  simp only [flagsB, List.all_eq_true] at h
+  have := h _ hm
+  simp only [List.all_eq_true] at this
+  have := this f hf
+  simp only [Bool.or_eq_true, bne_iff_ne, ne_eq, beq_iff_eq] at this
+  rcases this with h1 | h1
+  · exact absurd hs h1
+  · exact h1
+
+/-- record 52 for the EBCDIC carrier: the ASCII facts, the image is the last written field and the only image-only
+one, `Parse()` counts bytes only, and its decode flags fit -/
+def IvKindE (m : Model) : Bool :=
+  IvKind m .ivData &&
+  (match (m.layout .ivData).write.reverse with
+   | last :: initR => last.imageOnly && isVarConv last.conv && last.lenField == "LengthImageData" && initR.all (fun f => !f.imageOnly)
+   | [] => false) &&
+  (m.layout .ivData).parse.all (fun st => !usesRunes st) &&
+  flagsB (m.layout .ivData).write (m.layout .ivData).parse
+
+/-- the text part of record 52 (everything but the image bytes) is safe text -/
+def IvSafe (m : Model) (v : Vals) : Prop :=
+  (render m.b64 (m.layout .ivData).write false v).all (safeB m.cm) = true
+
+theorem recOK_ebcdic_iv (m : Model) (e : Enc) (he : e.ebcdic = true) (hd : DigitsOK m.cm = true)
+    (hk : IvKindE m = true) (v : Vals) (hc : RecCanon m .ivData v) (hs : IvSafe m v) :
+    RecOK m e (bodyLn m e) .ivData v := by
+  simp only [IvKindE, Bool.and_eq_true] at hk
+  obtain ⟨⟨⟨hiv, hlast⟩, hnr⟩, hflags⟩ := hk
+  have hivo := hiv
+  simp only [IvKind, Bool.and_eq_true, beq_iff_eq, Bool.not_eq_true'] at hiv
+  obtain ⟨⟨⟨⟨⟨⟨⟨⟨⟨⟨⟨⟨⟨⟨⟨hl, htf⟩, _⟩, hE⟩, hsp1⟩, hsp2⟩, hsp3⟩, hv1⟩, hv2⟩, hv3⟩, hn1⟩, hn2⟩, hn3⟩, ha1⟩, ha2⟩, ha3⟩ := hiv
+  -- the write table is `init ++ [last]`
+  cases hrev : (m.layout .ivData).write.reverse with
+  | nil => simp [hrev] at hlast
+  | cons last initR =>
+    simp only [hrev, Bool.and_eq_true, beq_iff_eq] at hlast
+    obtain ⟨⟨⟨hli, hlv⟩, hllf⟩, hni⟩ := hlast
+    have hws : (m.layout .ivData).write = initR.reverse ++ [last] := by
+      have := congrArg List.reverse hrev
+      simpa using this
+    have hniI : initR.reverse.all (fun f => !f.imageOnly) = true := by
+      simp only [List.all_eq_true, List.mem_reverse] at hni ⊢; exact hni
+    have ht := canon_typeSet m .ivData _ v hc
+    have hlo := hl
+    simp only [LayoutOK, Bool.and_eq_true] at hlo
+    have hwf : AllWf (initR.reverse ++ [last]) = true := by rw [← hws]; exact hlo.1
+    have hsym : ∀ g ∈ initR.reverse ++ [last], LenIsSym m.b64 g v := by
+      rw [← hws]; exact lenIsSym_all m.b64 _ _ _ v hc.canon
+    -- text and image
+    have htext : render m.b64 (m.layout .ivData).write false v = render m.b64 initR.reverse true v := by
+      rw [hws, render_append, render_noimg m.b64 _ v false hniI]
+      simp [render, hli]
+    have hfull : render m.b64 (m.layout .ivData).write true v = render m.b64 initR.reverse true v ++ renderField m.b64 last v := by
+      rw [hws, render_append]; simp [render]
+    have hsafe : (render m.b64 initR.reverse true v).all (safeB m.cm) = true := by
+      have := hs; unfold IvSafe at this; rw [htext] at this; exact this
+    have hbody : bodyLn m e .ivData v = (render m.b64 initR.reverse true v).map (enc1 m.cm) ++ renderField m.b64 last v := by
+      have hfil : ((m.layout .ivData).write.filter (·.imageOnly)) = [last] := by
+        rw [hws, List.filter_append]
+        have : initR.reverse.filter (·.imageOnly) = [] := by
+          simp only [List.filter_eq_nil_iff, List.mem_reverse]
+          intro a ha
+          simp only [List.all_eq_true, Bool.not_eq_true'] at hni
+          simp [hni a ha]
+        simp [this, hli]
+      simp only [bodyLn, he, bodyOf, if_true, htext, encode_ascii _ _ (safe_isAscii m.cm _ hsafe), hfil,
+        Option.map_some, Option.getD_some, List.flatMap_cons, List.flatMap_nil, List.append_nil]
+      rfl
+    -- ASCII facts
+    obtain ⟨hkindA, hminA, hparseA⟩ := recOK_ascii_iv m ⟨e.lp, false⟩ rfl .ivData hivo v hc
+    have hlen := line_length_eq m .ivData hl v hc
+    rw [hE] at hlen
+    simp only [SymOff.val, sumW, Nat.add_zero] at hlen
+    have hRlen : (bodyLn m e .ivData v).length = (render m.b64 (m.layout .ivData).write true v).length := by
+      rw [hbody, hfull]; simp
+    -- kind
+    have htfI : TypeFirst initR.reverse = true := by
+      cases hI : initR.reverse with
+      | nil =>
+        rw [hws, hI] at htf
+        simp only [List.nil_append, TypeFirst, Bool.and_eq_true, Bool.not_eq_true'] at htf
+        rw [hli] at htf; exact absurd htf.2 (by simp)
+      | cons f r =>
+        rw [hws, hI] at htf
+        simpa [TypeFirst] using htf
+    obtain ⟨rest, hr⟩ := render_typeFirst m.b64 initR.reverse v htfI
+    have hkind : kindOfLine (bodyLn m e .ivData v) = some .ivData := by
+      rw [hbody, hr, hc.typeSet]
+      simp only [List.map_append, tag_enc m.cm hd .ivData, List.append_assoc]
+      exact kindOfLine_ebcTag .ivData _
+    refine ⟨hkind, ?_, ?_⟩
+    · -- length test
+      show minLen m e (bodyLn m e .ivData v) ≤ (bodyLn m e .ivData v).length
+      have hl1 := canon_varLenOK m .ivData v hc _ hv1
+      have hl2 := canon_varLenOK m .ivData v hc _ hv2
+      have hl3 := canon_varLenOK m .ivData v hc _ hv3
+      have hw1 := widthOfLen_of_lenOK v _ hl1
+      have hw2 := widthOfLen_of_lenOK v _ hl2
+      have hw3 := widthOfLen_of_lenOK v _ hl3
+      obtain ⟨p1, q1, a1, a2, a3, a4⟩ := lenField_reads m .ivData hl v hc _ 4 _ hn1 ha1 hsp1
+      obtain ⟨p2, q2, b1, b2, b3, b4⟩ := lenField_reads m .ivData hl v hc _ 5 _ hn2 ha2 hsp2
+      obtain ⟨p3, q3, c1, c2, c3, c4⟩ := lenField_reads m .ivData hl v hc _ 7 _ hn3 ha3 hsp3
+      simp only [SymOff.val, sumW, Nat.add_zero] at a2 b2 c2
+      -- the text part is 117 + key + signature bytes long
+      have hTlen : (render m.b64 initR.reverse true v).length + (renderField m.b64 last v).length =
+          117 + (widthOfLen v "LengthImageReferenceKey" + (widthOfLen v "LengthDigitalSignature" + widthOfLen v "LengthImageData")) := by
+        have := hlen; simp only [lineOf, hfull, List.length_append] at this; exact this
+      have hlastlen : (renderField m.b64 last v).length = widthOfLen v "LengthImageData" := by
+        have hlw : WfW last = true := by
+          simp only [AllWf, List.all_eq_true] at hwf; exact hwf last (by simp)
+        rw [renderField_length m.b64 last v hlw ht]
+        have := hsym last (by simp)
+        unfold LenIsSym at this
+        rw [this, hlv, if_pos rfl, hllf]
+      have hline : render m.b64 initR.reverse true v ++ renderField m.b64 last v = lineOf m .ivData (some v) := by
+        simp only [lineOf, hfull]
+      obtain ⟨qE1, r1, r2, r3⟩ := carrier_reads m.cm _ _ p1 q1 4 (by rw [hline]; exact a1) (by omega) hsafe
+      obtain ⟨qE2, s1, s2, s3⟩ := carrier_reads m.cm _ _ p2 q2 5 (by rw [hline]; exact b1) (by omega) hsafe
+      obtain ⟨qE3, t1, t2, t3⟩ := carrier_reads m.cm _ _ p3 q3 7 (by rw [hline]; exact c1) (by omega) hsafe
+      have hm : minLen m e (bodyLn m e .ivData v) = (bodyLn m e .ivData v).length := by
+        unfold minLen
+        rw [hkind]
+        have hnl : ¬ (bodyLn m e .ivData v).length < 80 := by rw [hRlen, ← lineOf, hlen]; omega
+        simp only [hnl, if_false, he, if_true]
+        rw [hbody]
+        rw [ivMinLen_step_gen _ _ 101 4 _ (p1.map (enc1 m.cm)) qE1 _ r1 (by rw [List.length_map]; exact a2) r2 (by rw [r3]; exact a4) hl1.1]
+        rw [ivMinLen_step_gen _ _ _ 5 _ (p2.map (enc1 m.cm)) qE2 _ s1 (by rw [List.length_map, b2]; omega) s2 (by rw [s3]; exact b4) hl2.1]
+        rw [ivMinLen_step_gen _ _ _ 7 _ (p3.map (enc1 m.cm)) qE3 _ t1 (by rw [List.length_map, c2]; omega) t2 (by rw [t3]; exact c4) hl3.1]
+        simp only [ivMinLen, List.length_append, List.length_map]
+        omega
+      rw [hm]; exact Nat.le_refl _
+    · -- parse
+      show recParse m e .ivData (bodyLn m e .ivData v) (tmpl m .ivData) = .ok v
+      simp only [recParse, he, if_true]
+      have hnoRunes : ∀ st ∈ (m.layout .ivData).parse, usesRunes st = true →
+          runeCount (bodyLn m e .ivData v) = (bodyLn m e .ivData v).length := by
+        intro st hst hu
+        simp only [List.all_eq_true, Bool.not_eq_true'] at hnr
+        rw [hnr st hst] at hu; cases hu
+      have hslice : ∀ (o : SymOff) (f : WField) (pre post : Bytes), (o, f) ∈ spans (m.layout .ivData).write ⟨0, []⟩ →
+          render m.b64 (m.layout .ivData).write true v = pre ++ renderField m.b64 f v ++ post → pre.length = o.val v →
+          ∃ x, slice? (bodyLn m e .ivData v) (pre.length : Int) ((pre.length + (renderField m.b64 f v).length : Nat) : Int) = some x ∧
+            ∀ dc, (fun (f : WField) (dc : Bool) => dc = !f.imageOnly) f dc → (if dc = true then m.cm.decode x else x) = renderField m.b64 f v := by
+        intro o f pre post hmem h1 hpre
+        rw [hbody]
+        rw [hws] at hmem h1
+        exact iv_slice m.b64 m.cm initR.reverse last v ht hwf hsym hniI hli hsafe o f pre post hmem h1 hpre
+      have hp := parse_render_gen m.b64 m.now (m.layout .ivData).setType (m.layout .ivData).write v
+        (rawDsts (m.layout .ivData).parse) (assignDsts (m.layout .ivData).parse) hlo.1 ht hc.canon
+        m.cm.decode (bodyLn m e .ivData v) (fun f dc => dc = !f.imageOnly) hRlen hslice
+        (m.layout .ivData).parse {} (tmpl m .ivData) (fun d hd => hd) hnoRunes (flagsB_sound _ _ hflags)
+        (by intro d hd; cases hd) hlo.2
+      have he0 : envOf v ({} : PSt).binds = [] := rfl
+      rw [he0, hc.shaped] at hp
+      unfold parseValidate RecLayout.parseRec
+      dsimp only
+      rw [hp]
+      simp only [hc.valid]
+
 end Icl.C01
